@@ -469,7 +469,11 @@ func c19Database(r *ev.Run, batch int) {
 				} else {
 					r.Count("db.success", 1)
 				}
-				if len(ops) > 0 && len(rep.Results) == 0 && !rep.Hung {
+				if len(ops) > 0 && len(rep.Results) == 0 && !rep.Hung && rep.CommitErr != nil {
+					// the server's transact handler answered with an RPC error (it could not
+					// decode an operation): an answer, and the database was not touched
+					r.Count("db.rpc_error_reply", 1)
+				} else if len(ops) > 0 && len(rep.Results) == 0 && !rep.Hung {
 					r.Violation("C19/database/no-results", "no result at all for a non-empty operation list", map[string]interface{}{"ops": json.RawMessage(text)})
 				}
 			}()
